@@ -6,7 +6,7 @@ import re
 import sys
 import time
 
-sys.path.insert(0, '/verif')
+sys.path.insert(0, os.environ.get('VERIF_HOME', '/verif'))
 
 from vf import catalogue, pipeline, report, witness
 from vf.annotate import annotate, Undecided
